@@ -270,6 +270,17 @@ def main_wrapper(fn):
     sys.exit(rc)
 
 
+def pmap(fn, items, procs=None):
+    """Parallel map over forked worker processes (results in order)."""
+    import multiprocessing as mp
+    procs = procs or min(16, os.cpu_count() or 4, max(1, len(items)))
+    if procs <= 1 or len(items) <= 1:
+        return [fn(x) for x in items]
+    ctx = mp.get_context("fork")
+    with ctx.Pool(procs) as pool:
+        return pool.map(fn, items, chunksize=1)
+
+
 def ints(s):
     """text -> list of code points (TLC strings are opaque)."""
     if isinstance(s, (bytes, bytearray)):
